@@ -189,3 +189,50 @@ func vh_read_step() {
 	vassert(read == total, "every queued byte is returned exactly once")
 	vreach("read-all")
 }
+
+// Peek after 0..2 reads returns exactly the bytes not yet read, in stream order, and consumes
+// nothing (segments whose views were partly delivered are resumed at the right view).
+func vh_peek_step() {
+	c := vhEP(vparam("rcvbuf", 8), 1<<20)
+	e := c.e
+	readPos := seqnum.Value(vnU32("readPos"))
+	e.rcv = newReceiver(e, readPos-1, 8, 0)
+	e.snd = newSender(e, 1, readPos-1, 1<<16, 1460, 0)
+	e.state = stateConnected
+	pos := readPos
+	ns := 1 + vnChoice("nsegs", 2)
+	for i := 0; i < ns; i++ {
+		n := 1 + vnChoice("len", 3)
+		s := c.vhSeg(pos, n, vnChoice("split", 2), flagAck)
+		e.readyToRead(s)
+		pos = pos.Add(seqnum.Size(n))
+	}
+	total := int(readPos.Size(pos))
+	read := 0
+	nreads := vnChoice("reads", 3)
+	for k := 0; k < nreads; k++ {
+		e.rcvListMu.Lock()
+		v, err := e.readLocked()
+		e.rcvListMu.Unlock()
+		if err != nil {
+			break
+		}
+		read += len(v)
+	}
+	b1, b2 := make([]byte, 2), make([]byte, 8)
+	num, _, err := e.Peek([][]byte{b1, b2})
+	if read == total {
+		vassert(err != nil && num == 0, "peeking an empty queue reports that nothing is there")
+		vreach("peek-empty")
+		return
+	}
+	vassert(err == nil && int(num) == total-read, "Peek returns every byte that was queued and not yet read, and none that was read")
+	got := append(append([]byte{}, b1...), b2...)[:int(num)]
+	vassert(vhConsistent(readPos.Add(seqnum.Size(read)), got), "Peek returns the next bytes of the stream, in order")
+	vassert(e.rcvBufUsed == total-read, "Peek consumes nothing")
+	e.rcvListMu.Lock()
+	v, err2 := e.readLocked()
+	e.rcvListMu.Unlock()
+	vassert(err2 == nil && vhConsistent(readPos.Add(seqnum.Size(read)), v), "a read after Peek returns the same next bytes")
+	vreach("peek")
+}
